@@ -45,7 +45,9 @@ m = dict(
                                  'typestate summaries, explicit data-flow slices, tree agreement')],
     checks=checks,
     notes='Static analysis only; every claim is partial and names the structural clause decided (DESIGN.md §4). '
-          'known_findings.jsonl lists genuine defects found on the pinned tree.',
+          'known_findings.jsonl lists genuine defects found on the pinned tree. quick = the default feature configuration '
+          '(C29: encryption); thorough = positive controls of the engines (fixtures/positive) + the default and the wide '
+          'feature configuration (encryption, hnsw_bench, replay, temporal_track, parallel_segments).',
     not_applicable=na,
 )
 out = os.path.join(HERE, 'MANIFEST.json')
